@@ -88,14 +88,20 @@ Fixpoint words_of_bytes (b : bytes) : list N :=
   | _ => []
   end.
 
-Fixpoint process (hs : hstate) (ws : list N) : hstate :=
+(** [process_aux hs buf n ws]: [buf] holds the words of the current block in reverse, [n] more
+    words (after the next one) complete it. Trailing words that do not fill a block are ignored
+    (the padded message never has any, see [pad_length]). *)
+Fixpoint process_aux (hs : hstate) (buf : list N) (n : nat) (ws : list N) : hstate :=
   match ws with
-  | w0 :: w1 :: w2 :: w3 :: w4 :: w5 :: w6 :: w7 ::
-    w8 :: w9 :: w10 :: w11 :: w12 :: w13 :: w14 :: w15 :: r =>
-      process
-        (compress hs [w0; w1; w2; w3; w4; w5; w6; w7; w8; w9; w10; w11; w12; w13; w14; w15]) r
-  | _ => hs
+  | [] => hs
+  | w :: r =>
+      match n with
+      | O => process_aux (compress hs (rev' (w :: buf))) [] 15%nat r
+      | S n' => process_aux hs (w :: buf) n' r
+      end
   end.
+
+Definition process (hs : hstate) (ws : list N) : hstate := process_aux hs [] 15%nat ws.
 
 (** * Padding *)
 
